@@ -72,6 +72,19 @@ let () = iter_lines (fun line ->
     print_endline (match fn with
       | "remove" -> show (Gen_ShiftLoops.coq_ShiftRemove items zn zc zi zk)
       | "insert" -> show (Gen_ShiftLoops.coq_ShiftInsert items zn zc zi zk item_idx)
+      | "ainsert" ->
+        (* Array::Insert glued from the generated pieces (InsertGlue.gen_array_insert): buffer at address 1000, the ItemHandler temporary
+           in cell 2^64 + 1, an external item in cell 2^64 + 7 (value 5) at address 7 *)
+        let big k = z_of_string (Z.to_string (Z.add (Z.shift_left Z.one 64) (Z.of_int k))) in
+        let aliased = int_of_string iis < ni in
+        let it = if aliased then z_of_string iis else big 7 in
+        let items2 = fun j -> if string_of_z j = string_of_z (big 7) then z_of_int 5 else items j in
+        let ptr = if aliased then z_of_int (1000 + int_of_string iis) else z_of_int 7 in
+        (match InsertGlue.gen_array_insert false items2 zn zc (z_of_int 1000) zi zk it ptr (big 1) with
+         | GenPrelude.Ok ((items', cnt'), _) ->
+           let m = int_of_z cnt' in
+           "ok [" ^ String.concat "," (Stdlib.List.init m (fun k -> string_of_z (items' (z_of_int k)))) ^ "]"
+         | GenPrelude.Stuck -> "abort" | GenPrelude.Exn -> "exception" | GenPrelude.Fuel -> "fuel")
       | _ -> "?")
   | ["gd"; "indexof"; ns; _caps; idx; _] ->
     (* generated Array::pvIndexOf: the buffer starts at address 1000 (in items); element i, one past the end, or an object elsewhere *)
